@@ -409,7 +409,23 @@ impl<'a, 'c> Gen<'a, 'c> {
     /// specialisations, f-strings, structs, floats, constant conditions, speculative-exec builtins.
     fn full_expr(&mut self, ty: &Ty, d: u32, flow: bool) -> Option<String> {
         match ty {
-            Ty::Bool => Some(match self.ch.below(5) {
+            Ty::Bool => Some(match self.ch.below(7) {
+                5 | 6 => {
+                    // comparisons whose operands are equal across representations (float vs int, big vs small, bool vs int):
+                    // comparing against a constant compiles to specialised instructions
+                    let c = self.ch.range(-3, 40);
+                    let c2 = if self.ch.chance(2, 3) { c } else { c + 1 };
+                    let lhs = match self.ch.below(5) {
+                        0 => format!("({} * 1.0)", konst(format!("{c}"))),
+                        1 => format!("{}({})", callee("float"), konst(format!("{c}"))),
+                        2 => format!("({} / 2)", konst(format!("{}", 2 * c))),
+                        3 => format!("({} - {})", konst(format!("{}", (1i64 << 40) + c)), konst(format!("{}", 1i64 << 40))),
+                        _ => format!("({} + 0.0)", self.small_int_lit(c, c)),
+                    };
+                    let op = *self.ch.pick(&["==", "!=", "==", "<=", ">="]);
+                    let rhs = konst(format!("{}", if c2 < 0 { format!("({c2})") } else { format!("{c2}") }));
+                    if self.ch.bool() { format!("({lhs} {op} {rhs})") } else { format!("({rhs} {op} {lhs})") }
+                }
                 0 => {
                     let t = self.gen_ty(1);
                     let a = self.expr(&t, d, true);
